@@ -158,6 +158,12 @@ func judgeRun(out runOut, d damage, need int) *viol {
 		v.Key = v.Key + "/" + d.Kind
 		return &v
 	}
+	// a byte altered in the checksum or payload of a completely present record is caught by the checksum: the
+	// reader must stop there with an error of the distinct corruption class (what SearchForEndHeight's
+	// IgnoreDataCorruptionErrors and catchupReplay key on), not with a generic error
+	if d.Kind == "corrupt" && (d.Field == "crc" || d.Field == "payload") && out.N == need && out.ErrClass != "corruption" && out.ErrClass != "panic" {
+		return &viol{"damage/checksum-failure-not-reported-as-corruption/" + d.Field, fmt.Sprintf("byte %d (%s of record %d) altered: the decoder stopped there with %s %q instead of a data-corruption error", d.Off, d.Field, d.Rec, out.ErrClass, out.Err), nil}
+	}
 	if out.N < need {
 		return &viol{"damage/intact-record-lost/" + d.Kind, fmt.Sprintf("%d records lie wholly before the damage (decode started at record %d) but only %d were returned before %s (%s)", need, d.From, out.N, out.ErrClass, out.Err), nil}
 	}
